@@ -132,19 +132,43 @@ def run(cx: Cx):
         else:
             cx.ok('R-DISC', 'priority written only at construction', where=s.where, function=s.fn.qualname)
 
+    # queue operations (remove / in / index) compare with ==: the scheduler's objects must keep identity equality
+    sysc = prog.cls(CORE + 'System')
+    for ci in prog.subclasses(sysc):
+        bad = [m for m in ('__eq__', '__hash__', '__ne__') if m in ci.methods]
+        if bad:
+            cx.violation('R-DISC', ci.qualname, 'systems-compare-by-identity',
+                         f"{ci.qualname} defines {bad}: execution_queue.remove(<system>) / `<system> in execution_queue` then act on the "
+                         f"first EQUAL system instead of the requested object - removing one of several equal-priority systems removes "
+                         f"the wrong one and the queue and the registry diverge", where=ci.where)
+    cx.ok('R-DISC', 'System and its package subclasses keep identity equality', where=sysc.where, function=sysc.qualname)
+
     # ------------------------------------------------------------ clause 2 + 5a: add_system
     self_n, s_n = add.params[0], add.params[1]
     Q = queue_term(self_n)
     REG = Attr(Sym(self_n), 'systems')
     s_sym = Sym(s_n)
     ps = cx.walker.paths(add, WalkOptions(unroll=2, axioms=_axioms(self_n, s_n)))
+    shape, why = _insertion_shape(cx, add, ps)
+    if shape == 'unknown':
+        cx.inconclusive('R-GUARD', 'add_system insertion algorithm',
+                        f"add_system places the new system with an algorithm outside the verified idioms (ascending scan with insert at "
+                        f"the first strictly lower entry / append + stable descending sort / bisect.insort_right with key=-priority): "
+                        f"{why}; first-strictly-lower placement can neither be proved nor refuted by the path rules", where=cx.where(add),
+                        function=add.qualname)
+    elif shape == 'bisect-left':
+        cx.violation('R-GUARD', add.qualname, 'equal-priorities-keep-registration-order',
+                     f"add_system uses {why}: a new system is placed BEFORE the systems of equal priority registered earlier (ties become "
+                     f"last-in-first-out)", where=cx.where(add))
+    elif shape == 'bisect':
+        cx.ok('R-GUARD', 'bisect.insort_right keyed by descending priority', where=cx.where(add), function=add.qualname)
     n_success = 0
     for p in ps:
         if p.end == 'raise':
             continue
         n_success += 1
         ins = [e for e in p.events if e.kind == 'store' and e.data.get('loc') == QLOC
-               and e.data.get('store') in ('insert', 'append')]
+               and e.data.get('store') in ('insert', 'append', 'insort', 'insort_right', 'insort_left')]
         sorts = [e for e in p.events if e.kind == 'store' and e.data.get('loc') == QLOC and e.data.get('store') == 'sort']
         regs = [e for e in p.events if e.kind == 'store' and e.data.get('loc') == RLOC]
         pl = p.lines()
@@ -165,6 +189,8 @@ def run(cx: Cx):
                          where=cx.where(add, pl[-1] if pl else None), path=pl)
             continue
         e = ins[0]
+        if shape != 'scan':
+            continue        # placement decided (or declared undecidable) above; pairing and atomicity still apply
         iters = [x for x in p.events if x.kind == 'iter']
         if e.data.get('value') != s_sym and e.data.get('store') == 'insert' or \
                 (e.data.get('store') == 'append' and e.data.get('key') != s_sym):
@@ -336,6 +362,41 @@ def run(cx: Cx):
                              f"default collector no longer runs after default systems", where=cx.where(ctor))
         else:
             cx.inconclusive('R-FWD', f"{c} default priority", "default priority is not a constant", where=cx.where(ctor))
+
+
+def _insertion_shape(cx, add, ps):
+    """Which verified insertion idiom add_system uses: 'scan' | 'bisect' | 'bisect-left' | 'unknown'."""
+    has_while = any(isinstance(n, ast.While) for n in ast.walk(add.node))
+    kinds = set()
+    for p in ps:
+        for e in p.events:
+            if e.kind == 'store' and e.data.get('loc') == QLOC:
+                k = e.data.get('store')
+                if k in ('insort', 'insort_right', 'insort_left'):
+                    node = e.node
+                    key = next((kw.value for kw in node.keywords if kw.arg == 'key'), None) if isinstance(node, ast.Call) else None
+                    okkey = False
+                    if isinstance(key, ast.Lambda) and len(key.args.args) == 1:
+                        b = key.body
+                        v = key.args.args[0].arg
+                        okkey = isinstance(b, ast.UnaryOp) and isinstance(b.op, ast.USub) and isinstance(b.operand, ast.Attribute) \
+                            and b.operand.attr == 'priority' and isinstance(b.operand.value, ast.Name) and b.operand.value.id == v
+                    if not okkey:
+                        return 'unknown', f"bisect.{k} without key=lambda x: -x.priority (placement depends on how System objects compare)"
+                    kinds.add('bisect-left' if k == 'insort_left' else 'bisect')
+                elif k == 'insert':
+                    if not e.loops:
+                        return 'unknown', f"queue.insert at line {e.line} is not inside a scan loop over the queue"
+                    kinds.add('scan')
+                elif k in ('append', 'sort'):
+                    kinds.add('scan')
+    if 'bisect-left' in kinds:
+        return 'bisect-left', 'bisect.insort_left'
+    if 'bisect' in kinds:
+        return 'bisect', 'bisect.insort_right'
+    if has_while:
+        return 'unknown', 'the position is searched with a while loop'
+    return 'scan', ''
 
 
 def _strip(f):
